@@ -1700,6 +1700,14 @@ func ruleR20_15(r *Run) {
 					if callName(x) == "NumVoxels" {
 						hit = x
 					}
+					if callName(x) == "Prod" {
+						// a product of per-axis block counts of the requested box (Size().Div(blockSize).Prod())
+						for _, rt := range roots(recvOfCall(x), f) {
+							if c2, ok := rt.V.(*ssa.Call); ok && callName(c2) == "Div" {
+								hit = x
+							}
+						}
+					}
 				case *ssa.Convert:
 					walk(x.X, d+1)
 				case *ssa.BinOp:
@@ -1717,11 +1725,17 @@ func ruleR20_15(r *Run) {
 		k := 0
 		for _, b := range f.Blocks {
 			for _, in := range b.Instrs {
-				mk, ok := in.(*ssa.MakeSlice)
-				if !ok {
+				var mkLen ssa.Value
+				var mk ssa.Instruction
+				switch x := in.(type) {
+				case *ssa.MakeSlice:
+					mkLen, mk = x.Len, x
+				case *ssa.MakeChan:
+					mkLen, mk = x.Size, x
+				default:
 					continue
 				}
-				nv := derivesNV(mk.Len)
+				nv := derivesNV(mkLen)
 				if nv == nil {
 					continue
 				}
@@ -1741,14 +1755,19 @@ func ruleR20_15(r *Run) {
 					kk, isK := constInt(bo.Y)
 					// the test must be on the allocated length itself: a positive voxel count times the bytes
 					// per voxel can still overflow to a negative length
-					if !isK || stripConv(bo.X) != stripConv(mk.Len) {
+					if !isK || stripConv(bo.X) != stripConv(mkLen) {
 						continue
 					}
 					// the edge on which the count is known positive
 					pos := -1
 					switch {
-					case bo.Op == token.LEQ && kk == 0, bo.Op == token.LSS && kk == 1, bo.Op == token.LSS && kk == 0 && false:
+					case bo.Op == token.LEQ && kk == 0, bo.Op == token.LSS && kk == 1:
 						pos = 1
+					case bo.Op == token.LSS && kk == 0:
+						// "not negative" is enough for a channel capacity
+						if _, isChan := mk.(*ssa.MakeChan); isChan {
+							pos = 1
+						}
 					case bo.Op == token.GTR && kk == 0, bo.Op == token.GEQ && kk == 1:
 						pos = 0
 					}
@@ -1756,7 +1775,7 @@ func ruleR20_15(r *Run) {
 						guarded = true
 					}
 				}
-				r.check(guarded, fmt.Sprintf("%s:make#%d:positive-voxel-count", fname(f), k), "the allocation is on the 'count > 0' edge of a test of the voxel count",
+				r.check(guarded, fmt.Sprintf("%s:make#%d:positive-voxel-count", fname(f), k), "the allocation is on the 'count > 0' (channel: 'not negative') edge of a test of the allocated size",
 					"a buffer is allocated with a length derived from the request geometry's voxel count without rejecting a non-positive length (the test, if any, is on another value than the allocated length): a negative size component, or bytes-per-voxel × count overflowing int64, makes make() panic, and the request is answered by the panic handler instead of being rejected", w.pos(mk.Pos()))
 			}
 		}
